@@ -296,3 +296,6 @@ PROPS["C14"]["rule"] += " ; plus the mutate engine (objects mutated between repe
 PROPS["C09"]["engines"].append(("multifile", {"quick": 40, "thorough": 800}))
 PROPS["C09"]["rule"] += (" ; plus real sessions over 2-3 files (displays ending in a trailing comma edited by two categories, list fixes, updates, creates): the categories approved together "
                          "and one at a time in two orders, through the plugin's own report / apply loop")
+
+PROPS["C07"]["engines"].append(("multifile", {"quick": 30, "thorough": 600}))
+PROPS["C07"]["rule"] += " ; plus real multi-file sessions (one file may live in a directory named like a marker): no test fails in the set-up of the snapshot_check fixture"
